@@ -10,7 +10,9 @@
      definition: name, original identifier, ports, cables, children (ordered)
      port     : name, original identifier, direction, is_array, number of pins (lower index kept,
                 never read by the comparer)
-     cable    : name, original identifier, wires (ordered), each wire = ordered list of pins
+     cable    : name, original identifier, wires (ordered), each wire = list of pins in the order
+                in which Wire.pins lists them (the comparer matches the pins of two wires by key,
+                so this order does not influence what it accepts)
      pin      : inner pin = (name of its port, index in that port);
                 outer pin = (name of its instance, name of the port of the inner pin, index);
                 the instance of an outer pin is the child of the enclosing definition with that
@@ -309,17 +311,95 @@ Definition cmp_pin (xo xc : ctx) (io ic : list inst) (po pc : pinref) : outcome 
   | RIn qo bo, RIn qc bc => inner_equiv bo qo xo bc qc xc
   | ROut o, ROut c =>
     seq (inst_equiv o c) (inner_equiv (op_bit o) (op_port o) (op_ref o) (op_bit c) (op_port c) (op_ref c))
-  | _, _ => Reject                                (* pin types do not match up *)
+  | _, _ => Reject                                (* an outer pin against an inner pin *)
   end.
 
-Fixpoint cmp_pins (xo xc : ctx) (io ic : list inst) (po pc : list pinref) : outcome :=
-  match po, pc with
-  | o :: po', c :: pc' => seq (cmp_pin xo xc io ic o c) (cmp_pins xo xc io ic po' pc')
-  | _, _ => Accept
+(* ---------- the pins of a wire are compared as a set ---------- *)
+(* get_pin_key: (is an outer pin, name of the instance - an assignment-style name is reduced to
+   "SDN_Assignment_" + its width field -, name of the port, index in the port) *)
+Definition pkey := (bool * oname * oname * nat)%type.
+
+Definition pkey_eqb (a b : pkey) : bool :=
+  match a, b with
+  | (ka, ia, qa, ba), (kb, ib, qb, bb) =>
+    Bool.eqb ka kb && oname_eqb ia ib && oname_eqb qa qb && Nat.eqb ba bb
+  end.
+
+(* instance_name = get_identifier(pin.instance); if it is not None and starts with
+   "SDN_Assignment_": "SDN_Assignment_" + instance_name.split("_")[3]  (IndexError) *)
+Definition inst_key (n : oname) : outcome + oname :=
+  match n with
+  | None => inr None
+  | Some s =>
+    if starts_with asg_prefix s then
+      match asg_width s with
+      | Some w => inr (Some (asg_prefix ++ w))
+      | None => inl IndexErr
+      end
+    else inr (Some s)
+  end.
+
+Definition pin_key (x : ctx) (insts : list inst) (p : pinref) : outcome + pkey :=
+  match resolve x insts p with
+  | RIn q b => inr (false, None, q, b)
+  | ROut o =>
+    match inst_key (op_inst o) with
+    | inl e => inl e
+    | inr k => inr (true, k, op_port o, op_bit o)
+    end
+  | RLoose => inl AttrErr                         (* port is None: None.pins *)
+  | RBad => inl Ill
+  end.
+
+(* composer_pins: key -> pins of the composer's wire with that key, in wire order; kept as the
+   list of (key, pin) in wire order: the first entry with a key is the head of that key's list *)
+Definition ptable := list (pkey * pinref).
+
+Fixpoint pin_table (x : ctx) (insts : list inst) (w : wire) : outcome + ptable :=
+  match w with
+  | [] => inr []
+  | p :: w' =>
+    match pin_key x insts p with
+    | inl e => inl e
+    | inr k => match pin_table x insts w' with
+               | inl e => inl e
+               | inr t => inr ((k, p) :: t)
+               end
+    end
+  end.
+
+(* candidates = composer_pins.get(key); assert candidates; candidates.pop(0) *)
+Fixpoint take_key (k : pkey) (t : ptable) : option (pinref * ptable) :=
+  match t with
+  | [] => None
+  | (k', p) :: t' =>
+    if pkey_eqb k k' then Some (p, t')
+    else match take_key k t' with
+         | Some (q, r) => Some (q, (k', p) :: r)
+         | None => None
+         end
+  end.
+
+Fixpoint cmp_pins (xo xc : ctx) (io ic : list inst) (po : list pinref) (t : ptable) : outcome :=
+  match po with
+  | [] => Accept
+  | o :: po' =>
+    match pin_key xo io o with
+    | inl e => e
+    | inr k =>
+      match take_key k t with
+      | None => Reject                            (* Net does not connect the same pins *)
+      | Some (c, t') => seq (cmp_pin xo xc io ic o c) (cmp_pins xo xc io ic po' t')
+      end
+    end
   end.
 
 Definition cmp_wire (xo xc : ctx) (io ic : list inst) (wo wc : wire) : outcome :=
-  seq (check (Nat.eqb (length wo) (length wc))) (cmp_pins xo xc io ic wo wc).
+  seq (check (Nat.eqb (length wo) (length wc)))
+      (match pin_table xc ic wc with
+       | inl e => e
+       | inr t => cmp_pins xo xc io ic wo t
+       end).
 
 Fixpoint cmp_wires (xo xc : ctx) (io ic : list inst) (wo wc : list wire) : outcome :=
   match wo, wc with
@@ -332,6 +412,15 @@ Definition cmp_cable (xo xc : ctx) (io ic : list inst) (o c : cable) : outcome :
  (seq (check (oname_eqb (c_oid o) (c_oid c)))
  (seq (check (Nat.eqb (length (c_wires o)) (length (c_wires c))))
       (cmp_wires xo xc io ic (c_wires o) (c_wires c)))).
+
+(* the keys of all pins on the wires of a netlist, as Comparer.get_pin_key computes them
+   (libraries / definitions / cables / wires / pins in order): compared with the real method on
+   every run *)
+Definition def_keys (ln : oname) (d : defn) : list (list (list (outcome + pkey))) :=
+  map (fun c => map (fun w => map (pin_key (d_name d, ln) (d_insts d)) w) (c_wires c)) (d_cables d).
+
+Definition nv_keys (a : nv) : list (list (list (list (list (outcome + pkey))))) :=
+  map (fun l => map (def_keys (l_name l)) (l_defs l)) (n_libs a).
 
 (* ---------- compare_instances ---------- *)
 Fixpoint cmp_items (items : pdict) (oc : option pdict) : outcome :=
